@@ -50,11 +50,12 @@ class InjectedError(Exception):
 
 
 class Tok:
-    __slots__ = ("n", "kind", "future", "site", "observed", "nid", "pool", "ident", "tid")
+    __slots__ = ("n", "kind", "future", "site", "observed", "nid", "pool", "ident", "tid", "orphan")
 
     def __init__(self, n: int, kind: str) -> None:
         self.n = n
-        self.kind = kind  # "thread" | "async"
+        self.kind = kind  # "thread" | "async" | "orphan" (left in a pool's queue by a failed worker spawn)
+        self.orphan = False
         self.future: Optional[cf.Future] = None
         self.site: Optional[str] = None
         self.observed = False
@@ -81,8 +82,16 @@ class Exec:
         label: str = "",
         watchdog: bool = True,
         drain: bool = True,
+        spawn_fail: Optional[int] = None,
     ) -> None:
         assert mode in ("free", "ctl")
+        # fault injection: the pool's attempt to start its spawn_fail-th new worker (0-based, counted over this
+        # execution) fails like the OS does when it has no thread left - RuntimeError("can't start new thread") out
+        # of submit(), with the work item already in the pool's queue, exactly as in concurrent.futures.thread
+        self.spawn_fail = spawn_fail
+        self.spawns = 0
+        self.orphan_gen = 0
+
         self.drain = drain  # wait (up to 3 s) at exit for nodes that are still running
         self.watchdog = watchdog
         self.mode = mode
@@ -122,7 +131,8 @@ class Exec:
         with self.cv:
             self.abort = True
             self.cv.notify_all()
-        pend = [t.future for t in self.toks if t.future is not None and not t.future.done()]
+        pend = [t.future for t in self.toks if t.future is not None and not t.future.done()
+                and not (t.orphan and not getattr(t.pool, "_threads", None))]  # orphan without any worker: never runs
         if pend and self.drain:
             _real_wait(pend, timeout=3.0)
         self.finished = True
@@ -161,6 +171,16 @@ class Exec:
         if self.mode == "ctl":
             if tok is None:
                 return
+            if tok.orphan:
+                # an orphaned work item is nobody's in-flight node: no wait call will ever ask for it.  It is held
+                # until the scheduler's next wait call (so that whatever gets dispatched next to it is seen next to
+                # it), at most one second
+                end = time.monotonic() + 1.0
+                with self.cv:
+                    g = self.orphan_gen
+                    while self.orphan_gen == g and not self.abort and time.monotonic() < end:
+                        self.cv.wait(0.05)
+                return
             with self.cv:
                 while site not in self.released and not self.abort:
                     self.cv.wait(0.05)
@@ -188,7 +208,7 @@ class Exec:
         return [
             t
             for t in self.toks
-            if t.site is not None and t.site not in self.released and not t.future.done()  # type: ignore[union-attr]
+            if t.site is not None and not t.orphan and t.site not in self.released and not t.future.done()  # type: ignore[union-attr]
         ]
 
     def _wait_all_entered(self, limit: float = 2.0) -> None:
@@ -196,7 +216,7 @@ class Exec:
         end = time.monotonic() + limit
         with self.cv:
             while True:
-                missing = [t for t in self.toks if t.site is None and not t.future.done()]  # type: ignore[union-attr]
+                missing = [t for t in self.toks if t.site is None and not t.orphan and not t.future.done()]  # type: ignore[union-attr]
                 if not missing or self.abort:
                     return
                 if time.monotonic() > end:
@@ -306,8 +326,15 @@ class Exec:
     def _inflight_sites(self) -> List[Any]:
         return [[t.site, t.kind, t.n] for t in self.toks if not t.observed]
 
+    def _open_orphans(self) -> None:
+        if self.spawn_fail is not None:
+            with self.cv:
+                self.orphan_gen += 1
+                self.cv.notify_all()
+
     def on_wait(self, fs: Any, timeout: Any, return_when: str) -> Any:
         fs = set(fs)
+        self._open_orphans()
         if self.mode != "ctl" or self.abort:
             e = self.ev("WAIT", kind="thread", n=len(fs), when=return_when, blocking=None)
             res = _real_wait(fs, timeout=timeout, return_when=return_when)
@@ -392,6 +419,7 @@ class Exec:
 
     async def on_async_wait(self, fs: Any, timeout: Any, return_when: str) -> Any:
         fs = set(fs)
+        self._open_orphans()
         if self.mode != "ctl" or self.abort:
             e = self.ev("WAIT", kind="async", n=len(fs), when=return_when, blocking=None)
             res = await _real_async_wait(fs, timeout=timeout, return_when=return_when)
@@ -471,6 +499,8 @@ class Exec:
                 return fn(*a, **k)
             finally:
                 TL.ex, TL.tok = None, None
+                if tok.orphan and tok.future is not None and not tok.future.done():
+                    tok.future.set_result(None)
 
         inflight = sum(1 for t in self.toks if t.future is not None and not t.future.done()) + 1
         self.ev(
@@ -482,7 +512,16 @@ class Exec:
             workers=getattr(pool, "_max_workers", None),
             th=threading.get_ident(),
         )
-        fut = real_submit(run, *args, **kwargs)
+        try:
+            fut = real_submit(run, *args, **kwargs)
+        except RuntimeError as e:
+            if "can't start new thread" in str(e):
+                # the work item stays in the pool's queue: another worker of that pool (if there is one) runs it
+                # when it gets free.  No caller ever sees a future for it; ours completes when the item has run
+                tok.observed, tok.orphan, tok.kind = True, True, "orphan"
+                tok.future = cf.Future()
+                self.ev("SPAWNFAIL", tok=tok.n, nid=tok.nid, kind=kind, workers_alive=len(getattr(pool, "_threads", ())))
+            raise
         tok.future = fut
         fut.add_done_callback(self._notify)
         return fut
@@ -511,6 +550,22 @@ class CtlPool(_RealPool):  # type: ignore[misc,valid-type]
         self._vlib_ex = CUR.get()
         if self._vlib_ex is not None:
             self._vlib_ex.ev("POOL", workers=self._max_workers)
+
+    def _adjust_thread_count(self) -> None:
+        ex = self._vlib_ex
+        if ex is None or ex.finished or ex.spawn_fail is None:
+            return super()._adjust_thread_count()
+        # same decisions as concurrent.futures.thread.ThreadPoolExecutor._adjust_thread_count (CPython 3.8-3.12); the
+        # one difference is that the chosen spawn fails where Thread.start() would raise
+        if self._idle_semaphore.acquire(timeout=0):
+            return
+        if len(self._threads) < self._max_workers:
+            with ex.cv:
+                n = ex.spawns
+                ex.spawns += 1
+            if n == ex.spawn_fail:
+                raise RuntimeError("can't start new thread")
+        return super()._adjust_thread_count()  # probes again: a worker that became idle meanwhile is reused
 
     def submit(self, fn: Any, /, *args: Any, **kwargs: Any) -> Any:  # type: ignore[override]
         ex = self._vlib_ex
